@@ -36,24 +36,48 @@ Definition same_at (i s : inner) (k : K) : Prop := get k (i_objs i) = get k (i_o
 Definition frame (i s : inner) (k : K) : Prop := forall k', K_eqb k' k = false -> same_at i s k'.
 
 Lemma lookup_same i s k : same_at i s k -> inner_lookup i k = inner_lookup s k.
-Proof. unfold same_at, inner_lookup, cur, stack. intros ->. reflexivity. Qed.
+Proof. unfold same_at, inner_lookup, cur, cur_row, stack. intros ->. reflexivity. Qed.
 Lemma frame_refl s k : frame s s k.
 Proof. intros k' _. reflexivity. Qed.
 Lemma frame_set_stack s k l : frame (set_stack s k l) s k.
 Proof. intros k' H. unfold same_at, set_stack. cbn [i_objs]. apply get_set_other. exact H. Qed.
-Lemma frame_write s k v : frame (write s k v) s k.
-Proof. apply frame_set_stack. Qed.
-Lemma frame_replace_top s k v : frame (replace_top s k v) s k.
-Proof. apply frame_set_stack. Qed.
 Lemma frame_objs_eq i s k : i_objs i = i_objs s -> frame i s k.
 Proof. intros E k' _. unfold same_at. rewrite E. reflexivity. Qed.
 Lemma frame_trans a b c k : frame a b k -> frame b c k -> frame a c k.
 Proof. intros H1 H2 k' H. unfold same_at in *. rewrite (H1 k' H). apply H2. exact H. Qed.
-
-Lemma lookup_write s k o : inner_lookup (write s k (VObj o)) k = RObj o.
+Lemma frame_bump s0 s k : frame s0 s k -> frame (bump_vid s0) s k.
+Proof. intros H. eapply frame_trans; [apply frame_objs_eq; reflexivity | exact H]. Qed.
+Lemma frame_write_new s k v c ip : frame (write_new s k v c ip) s k.
 Proof.
-  unfold inner_lookup, cur, stack, write, set_stack. cbn [i_objs]. rewrite get_set_same.
-  destruct (versioned k); reflexivity.
+  unfold write_new. destruct (is_enabled s (fst k)); [apply frame_bump, frame_set_stack|].
+  destruct (null_row s k); [destruct ip|]; apply frame_set_stack.
+Qed.
+Lemma frame_upd_target s k vr f : frame (upd_target s k vr f) s k.
+Proof. apply frame_set_stack. Qed.
+Lemma frame_push_marker s k : frame (push_marker s k) s k.
+Proof. apply frame_bump, frame_set_stack. Qed.
+Lemma frame_remove_version s k vr r : frame (remove_version s k vr r) s k.
+Proof. apply frame_set_stack. Qed.
+
+(* the object a successful unconditional-looking put leaves as the current one *)
+Lemma find_latest_map_null v (l : list row) :
+  find is_null l <> None ->
+  exists c, find w_latest (map (fun r => if is_null r then mkRow None v (w_created r) true else unlatest1 r) l)
+            = Some (mkRow None v c true).
+Proof.
+  induction l as [|r l IH]; cbn; [congruence|]. intros H.
+  destruct (is_null r) eqn:E; cbn; [eexists; reflexivity|]. apply IH. exact H.
+Qed.
+Lemma lookup_write_new s k o c ip : inner_lookup (write_new s k (VObj o) c ip) k = RObj o.
+Proof.
+  unfold inner_lookup, cur, cur_row, stack, write_new.
+  destruct (is_enabled s (fst k)).
+  - unfold bump_vid, set_stack. cbn [i_objs]. rewrite get_set_same. reflexivity.
+  - destruct (null_row s k) eqn:N; [destruct ip|]; unfold set_stack; cbn [i_objs]; rewrite get_set_same; try reflexivity.
+    unfold null_row in N.
+    destruct (find_latest_map_null (VObj o) (match get k (i_objs s) with Some l => l | None => [] end)) as [c1 Hc].
+    { unfold stack in N. rewrite N. discriminate. }
+    unfold stack. rewrite Hc. reflexivity.
 Qed.
 
 (* every mutating call of the inner storage touches at most the addressed key; a failing call nothing *)
@@ -63,53 +87,62 @@ Lemma put_frame s k cid ct me tg cl c i e :
   (e = Ok -> exists st, inner_lookup i k = RObj (mkObj [cid] ct me tg cl (ES cid) st)).
 Proof.
   unfold inner_put. destruct (match c with PNone => _ | _ => _ end); intros E; inversion E; subst.
-  - split; [apply frame_write|]. split; [congruence|]. intros _. eexists. apply lookup_write.
+  - split; [apply frame_write_new|]. split; [congruence|]. intros _. eexists. apply lookup_write_new.
   - split; [apply frame_refl|]. split; [reflexivity | discriminate].
 Qed.
 Lemma append_frame s k cid off i e :
   inner_append s k cid off = (i, e) -> frame i s k /\ (e <> Ok -> i = s).
 Proof.
   unfold inner_append. destruct (match off with None => _ | _ => _ end).
-  - intros E; inversion E; subst. split; [apply frame_write | congruence].
+  - destruct (is_enabled s (fst k)); [|destruct (cur_row s k)]; intros E; inversion E; subst;
+      (split; [first [apply frame_write_new | apply frame_upd_target | apply frame_set_stack] | congruence]).
   - intros E; inversion E; subst. split; [apply frame_refl | reflexivity].
 Qed.
 Lemma copy_frame s src dst rm ct me rt tg cl i e :
   inner_copy s src dst rm ct me rt tg cl = (i, e) -> frame i s dst.
 Proof.
   unfold inner_copy. destruct (inner_lookup s src); intros E; inversion E; subst;
-    [apply frame_write | apply frame_refl].
+    [apply frame_write_new | apply frame_refl].
 Qed.
-Lemma delete_frame s k c i e :
-  inner_delete s k c = (i, e) -> frame i s k /\ (e <> Ok -> i = s).
+Lemma delete_frame s k c vr i e :
+  inner_delete s k c vr = (i, e) -> frame i s k /\ (e <> Ok -> i = s).
 Proof.
-  unfold inner_delete. destruct (versioned k).
-  - destruct (cond_holds c (cur_obj s k)); intros E; inversion E; subst;
-      (split; [first [apply frame_write | apply frame_refl] | congruence]).
-  - destruct (cur_obj s k).
-    + destruct (cond_holds c (Some o)); intros E; inversion E; subst;
+  unfold inner_delete. destruct vr.
+  - destruct (is_unset s (fst k)).
+    + destruct (cur_row s k); [destruct (cond_holds c _)|destruct c]; intros E; inversion E; subst;
         (split; [first [apply frame_set_stack | apply frame_refl] | congruence]).
-    + destruct c; intros E; inversion E; subst; (split; [apply frame_refl | congruence]).
+    + destruct (cond_holds c (cur_obj s k)); intros E; inversion E; subst;
+        (split; [first [apply frame_push_marker | apply frame_refl] | congruence]).
+  - destruct (row_by s k VRNull); [destruct (match c with CTag _ => _ | _ => _ end)|destruct c]; intros E; inversion E; subst;
+      (split; [first [apply frame_remove_version | apply frame_refl] | congruence]).
+  - destruct (row_by s k (VRId n)); [destruct (match c with CTag _ => _ | _ => _ end)|destruct c]; intros E; inversion E; subst;
+      (split; [first [apply frame_remove_version | apply frame_refl] | congruence]).
+  - destruct (row_by s k VRBogus); [destruct (match c with CTag _ => _ | _ => _ end)|destruct c]; intros E; inversion E; subst;
+      (split; [first [apply frame_remove_version | apply frame_refl] | congruence]).
 Qed.
-Lemma delete_entry_frame s k c i d :
-  inner_delete_entry s k c = (i, d) -> frame i s k /\ (d = false -> i = s).
+Lemma delete_entry_frame s k c vr i d :
+  inner_delete_entry s k c vr = (i, d) -> frame i s k /\ (d = false -> i = s).
 Proof.
-  unfold inner_delete_entry. destruct (match c with CNone => _ | _ => _ end).
-  - destruct (versioned k).
-    + intros E; inversion E; subst. split; [apply frame_write | discriminate].
-    + destruct (cur s k); intros E; inversion E; subst;
-        (split; [first [apply frame_set_stack | apply frame_refl] | discriminate]).
-  - intros E; inversion E; subst. split; [apply frame_refl | reflexivity].
+  unfold inner_delete_entry.
+  destruct (match vr with VRNone => _ | _ => _ end) as [r|].
+  - destruct (match c with CNone => true | _ => _ end).
+    + destruct (inner_delete s k c vr) as [s' e] eqn:D. destruct (delete_frame _ _ _ _ _ _ D) as [F Hn].
+      destruct e; intros E; inversion E; subst; (split; [exact F|]); try discriminate;
+        intros _; apply Hn; discriminate.
+    + intros E; inversion E; subst. split; [apply frame_refl | reflexivity].
+  - destruct c; [destruct vr; [destruct (is_unset s (fst k))| | |]| |]; intros E; inversion E; subst;
+      (split; [first [apply frame_push_marker | apply frame_refl] | first [discriminate | reflexivity]]).
 Qed.
-Lemma tag_frame s k tg i e : inner_tag s k tg = (i, e) -> frame i s k.
+Lemma tag_frame s k tg vr i e : inner_tag s k tg vr = (i, e) -> frame i s k.
 Proof.
-  unfold inner_tag. destruct (inner_lookup s k); intros E; inversion E; subst;
-    [apply frame_replace_top | apply frame_refl].
+  unfold inner_tag. destruct (target_row s k vr) as [r|]; [destruct (w_ver r)|]; intros E; inversion E; subst;
+    first [apply frame_upd_target | apply frame_refl].
 Qed.
-Lemma trans_frame s k cl c i e : inner_trans s k cl c = (i, e) -> frame i s k.
+Lemma trans_frame s k cl c vr i e : inner_trans s k cl c vr = (i, e) -> frame i s k.
 Proof.
   unfold inner_trans. destruct (class_ok cl); [|intros E; inversion E; subst; apply frame_refl].
-  destruct (cur_obj s k); [destruct (cond_holds c (Some o))|]; intros E; inversion E; subst;
-    first [apply frame_replace_top | apply frame_refl].
+  destruct (row_obj (target_row s k vr)); [destruct (cond_holds c (Some o))|]; intros E; inversion E; subst;
+    first [apply frame_upd_target | apply frame_refl].
 Qed.
 Lemma mpart_objs s u pn cid i r : inner_mpart s u pn cid = (i, r) -> i_objs i = i_objs s.
 Proof.
@@ -128,7 +161,7 @@ Proof.
     + destruct (negb (seq_from 1 (u_parts up))); intros E; inversion E; subst.
       * split; [discriminate | reflexivity].
       * split; [|congruence]. intros _. exists (u_k up). split; [reflexivity|].
-        eapply frame_trans; [apply frame_write|]. apply frame_objs_eq. reflexivity.
+        eapply frame_trans; [apply frame_write_new|]. apply frame_objs_eq. reflexivity.
     + intros E; inversion E; subst. split; [discriminate | reflexivity].
   - intros E; inversion E; subst. split; [discriminate | reflexivity].
 Qed.
@@ -254,12 +287,12 @@ Proof.
   assert (forall es (s : st) (i0 i : inner) r,
     coherent (with_inner s i0) -> inner_delete_many i0 b es = (i, r) ->
     coherent (fold_left (fun (a : st) (kd : N * bool) => if snd kd then invalidate a (s_in a) (b, fst kd) else a) r (with_inner s i))) as G.
-  { induction es0 as [|[k c] es0 IH]; intros s i0 i r C E.
+  { induction es0 as [|[[k c] vr] es0 IH]; intros s i0 i r C E.
     - cbn in E. inversion E; subst. exact C.
     - cbn [inner_delete_many] in E.
-      destruct (inner_delete_entry i0 (b, k) c) as [s1 d] eqn:E1.
+      destruct (inner_delete_entry i0 (b, k) c vr) as [s1 d] eqn:E1.
       destruct (inner_delete_many s1 b es0) as [s2 r2] eqn:E2. inversion E; subst.
-      destruct (delete_entry_frame _ _ _ _ _ E1) as (F & Hn).
+      destruct (delete_entry_frame _ _ _ _ _ _ E1) as (F & Hn).
       cbn [fold_left snd fst].
       destruct d.
       + (* deleted: invalidating (b,k) now or after the rest commutes with the remaining deletes;
@@ -285,23 +318,25 @@ Proof.
   - (* copy *) cbn [step]. destruct (bucket_ok (fst src) && bucket_ok (fst dst)); [|exact C].
     destruct (inner_copy (s_in s) src dst rm ct meta rt tags cls) as [i e] eqn:P.
     apply coh_invalidate; [exact C | eapply copy_frame; exact P].
-  - (* delete *) cbn [step]. destruct (bucket_ok (fst k)); [|exact C].
-    destruct (inner_delete (s_in s) k c) as [i e] eqn:P.
-    destruct (delete_frame _ _ _ _ _ P) as (F & Hn).
+  - (* delete, with or without a version id *) cbn [step]. destruct (bucket_ok (fst k)); [|exact C].
+    destruct (inner_delete (s_in s) k c vr) as [i e] eqn:P.
+    destruct (delete_frame _ _ _ _ _ _ P) as (F & Hn).
     destruct e; try (rewrite (Hn ltac:(discriminate)), with_inner_id; exact C).
     apply coh_invalidate; assumption.
   - (* delete many *) cbn [step]. destruct (bucket_ok b); [|exact C].
-    destruct (inner_delete_many (s_in s) b es) as [i r] eqn:P. cbn [fst].
-    exact (coh_delete_many b es s i r C P).
+    destruct (inner_delete_many (s_in s) b (map (freeze_vref (i_nextvid (s_in s))) es)) as [i r] eqn:P. cbn [fst].
+    exact (coh_delete_many b _ s i r C P).
   - (* tag *) cbn [step]. destruct (bucket_ok (fst k)); [|exact C].
-    destruct (inner_tag (s_in s) k tags) as [i e] eqn:P.
+    destruct (inner_tag (s_in s) k tags vr) as [i e] eqn:P.
     apply coh_invalidate; [exact C | eapply tag_frame; exact P].
   - (* untag *) cbn [step]. destruct (bucket_ok (fst k)); [|exact C].
-    destruct (inner_tag (s_in s) k 0) as [i e] eqn:P.
+    destruct (inner_tag (s_in s) k 0 vr) as [i e] eqn:P.
     apply coh_invalidate; [exact C | eapply tag_frame; exact P].
   - (* transition *) cbn [step]. destruct (bucket_ok (fst k)); [|exact C].
-    destruct (inner_trans (s_in s) k cls c) as [i e] eqn:P.
+    destruct (inner_trans (s_in s) k cls c vr) as [i e] eqn:P.
     apply coh_invalidate; [exact C | eapply trans_frame; exact P].
+  - (* versioning configuration *) cbn [step]. destruct (bucket_ok b); [|exact C].
+    apply coh_with_inner; [exact C | reflexivity].
   - (* mcreate *) cbn [step]. destruct (bucket_ok (fst k)); [|exact C].
     apply coh_with_inner; [exact C | reflexivity].
   - (* mpart *) cbn [step]. destruct (inner_mpart (s_in s) u pn cid) as [i r] eqn:P.
@@ -315,6 +350,8 @@ Proof.
     destruct r; [|exact C]. apply coh_with_inner; [exact C | eapply mabort_objs; exact P].
   - (* head *) cbn [step]. destruct (bucket_ok (fst k)); [apply coh_head; exact C | exact C].
   - (* get *) apply coh_get; exact C.
+  - (* head by version id *) cbn [step]. destruct (bucket_ok (fst k)); exact C.
+  - (* get by version id *) cbn [step]. destruct (bucket_ok (fst k)); exact C.
   - exact C.
 Qed.
 
@@ -423,20 +460,21 @@ Proof.
   - destruct (bucket_ok (fst src) && bucket_ok (fst dst)); [|split; [exact C | exact I]].
     destruct (inner_copy (s_in s) src dst rm ct meta rt tags cls) as [i e]. split; [apply cons_invalidate; exact C | exact I].
   - destruct (bucket_ok (fst k)); [|split; [exact C | exact I]].
-    destruct (inner_delete (s_in s) k c) as [i e]. destruct e; (split; [first [apply cons_invalidate; exact C | exact C] | exact I]).
+    destruct (inner_delete (s_in s) k c vr) as [i e]. destruct e; (split; [first [apply cons_invalidate; exact C | exact C] | exact I]).
   - destruct (bucket_ok b); [|split; [exact C | exact I]].
-    destruct (inner_delete_many (s_in s) b es) as [i r]. split; [|exact I]. cbn [fst].
+    destruct (inner_delete_many (s_in s) b (map (freeze_vref (i_nextvid (s_in s))) es)) as [i r]. split; [|exact I]. cbn [fst].
     assert (forall r (a : st), consistent a ->
       consistent (fold_left (fun (a : st) (kd : N * bool) => if snd kd then invalidate a (s_in a) (b, fst kd) else a) r a)) as G.
     { induction r0 as [|[k d] r0 IH]; intros a Ca; cbn [fold_left]; [exact Ca|].
       apply IH. cbn [snd fst]. destruct d; [apply cons_invalidate; exact Ca | exact Ca]. }
     apply G. exact C.
   - destruct (bucket_ok (fst k)); [|split; [exact C | exact I]].
-    destruct (inner_tag (s_in s) k tags) as [i e]. split; [apply cons_invalidate; exact C | exact I].
+    destruct (inner_tag (s_in s) k tags vr) as [i e]. split; [apply cons_invalidate; exact C | exact I].
   - destruct (bucket_ok (fst k)); [|split; [exact C | exact I]].
-    destruct (inner_tag (s_in s) k 0) as [i e]. split; [apply cons_invalidate; exact C | exact I].
+    destruct (inner_tag (s_in s) k 0 vr) as [i e]. split; [apply cons_invalidate; exact C | exact I].
   - destruct (bucket_ok (fst k)); [|split; [exact C | exact I]].
-    destruct (inner_trans (s_in s) k cls c) as [i e]. split; [apply cons_invalidate; exact C | exact I].
+    destruct (inner_trans (s_in s) k cls c vr) as [i e]. split; [apply cons_invalidate; exact C | exact I].
+  - destruct (bucket_ok b); split; first [exact C | exact I].
   - destruct (bucket_ok (fst k)); split; first [exact C | exact I].
   - destruct (inner_mpart (s_in s) u pn cid) as [i r]. destruct r; split; first [exact C | exact I].
   - destruct (inner_mcomplete (s_in s) u) as [[i r] ok]. destruct r as [e|]; [|split; [exact C | exact I]].
@@ -472,6 +510,10 @@ Proof.
       pose proof (IGB o' b' eq_refl) as Hb.
       destruct (max_cached <? size_of o'); (split; [|exact Hb]); [exact C|]. cbn [fst s_in s_head s_body s_hs].
       apply FILL; exact Hb.
+  - (* head by version id *) destruct (bucket_ok (fst k)); [|split; [exact C | exact I]].
+    split; [exact C|]. cbn [snd]. destruct (inner_head_v (s_in s) k vr im inm); exact I.
+  - (* get by version id: answered by the inner storage *) destruct (bucket_ok (fst k)); [|split; [exact C | exact I]].
+    split; [exact C|]. cbn [snd]. unfold inner_get_v. destruct (inner_head_v (s_in s) k vr im inm); [reflexivity | exact I].
   - split; [exact C | exact I].
 Qed.
 
